@@ -1,17 +1,25 @@
 ------------------------------- MODULE HpkeData -------------------------------
 (* RFC 9180 transcribed: LabeledExtract / LabeledExpand, DHKEM ExtractAndExpand, KeySchedule (all four modes), ComputeNonce,
-   Seal/Open for the suites whose KEM and KDF use HKDF-SHA256 (DHKEM(P-256) = 0x0010, DHKEM(X25519) = 0x0020; KDF 0x0001;
-   AEAD 1 = AES-128-GCM, 2 = AES-256-GCM, 3 = ChaCha20-Poly1305).  The DH output itself is taken from the trace (its
-   correctness is C06's subject). *)
-EXTENDS HpkeSha256
+   Seal/Open for all five KEMs the library offers with the KDF the library pairs with each (RFC 9180 section 7.1/7.2):
+   DHKEM(P-256) 0x0010 and DHKEM(X25519) 0x0020 with HKDF-SHA256 (KDF 0x0001), DHKEM(P-384) 0x0011 with HKDF-SHA384 (0x0002),
+   DHKEM(P-521) 0x0012 and DHKEM(X448) 0x0021 with HKDF-SHA512 (0x0003); AEAD 1 = AES-128-GCM, 2 = AES-256-GCM,
+   3 = ChaCha20-Poly1305.  The DH output itself is taken from the trace (its correctness is C06's subject). *)
+EXTENDS HashAlgs
 G == INSTANCE AesAead
 CP == INSTANCE ChaChaPoly
 HPKEv1 == <<72, 80, 75, 69, 45, 118, 49>>                       \* "HPKE-v1"
 I2(n) == <<n \div 256, n % 256>>
-HkdfExtract(salt, ikm) == Hmac(IF Len(salt) = 0 THEN Rep(0, 32) ELSE salt, ikm)
-HkdfExpand(prk, info, L) == SubSeq(HkdfT(prk, info, <<>>, 1, L), 1, L)
-LabeledExtract(salt, label, ikm, suite) == HkdfExtract(salt, HPKEv1 \o suite \o label \o ikm)
-LabeledExpand(prk, label, info, L, suite) == HkdfExpand(prk, I2(L) \o HPKEv1 \o suite \o label \o info, L)
+\* the hash, KDF identifier and secret length that go with a KEM
+KemHash(kem) == CASE kem \in {16, 32} -> "SHA256" [] kem = 17 -> "SHA384" [] kem \in {18, 33} -> "SHA512"
+KemKdf(kem) == CASE kem \in {16, 32} -> 1 [] kem = 17 -> 2 [] kem \in {18, 33} -> 3
+Nh(h) == CASE h = "SHA256" -> 32 [] h = "SHA384" -> 48 [] h = "SHA512" -> 64
+Nsecret(kem) == CASE kem \in {16, 32} -> 32 [] kem = 17 -> 48 [] kem \in {18, 33} -> 64
+HkdfExtract(h, salt, ikm) == Hmac(h, IF Len(salt) = 0 THEN Rep(0, Nh(h)) ELSE salt, ikm)
+RECURSIVE HkdfT(_,_,_,_,_,_)
+HkdfT(h, prk, info, prev, n, need) == IF need <= 0 THEN <<>> ELSE LET t == Hmac(h, prk, prev \o info \o <<n>>) IN t \o HkdfT(h, prk, info, t, n + 1, need - Nh(h))
+HkdfExpand(h, prk, info, L) == SubSeq(HkdfT(h, prk, info, <<>>, 1, L), 1, L)
+LabeledExtract(h, salt, label, ikm, suite) == HkdfExtract(h, salt, HPKEv1 \o suite \o label \o ikm)
+LabeledExpand(h, prk, label, info, L, suite) == HkdfExpand(h, prk, I2(L) \o HPKEv1 \o suite \o label \o info, L)
 KemSuite(kem) == <<75, 69, 77>> \o I2(kem)                      \* "KEM" || I2OSP(kem_id, 2)
 HpkeSuite(kem, kdf, aead) == <<72, 80, 75, 69>> \o I2(kem) \o I2(kdf) \o I2(aead)
 L_eae == <<101, 97, 101, 95, 112, 114, 107>>                    \* "eae_prk"
@@ -22,13 +30,14 @@ L_secret == <<115,101,99,114,101,116>>                          \* "secret"
 L_key == <<107,101,121>>                                        \* "key"
 L_nonce == <<98,97,115,101,95,110,111,110,99,101>>              \* "base_nonce"
 L_exp == <<101,120,112>>                                        \* "exp"
-SharedSecret(dh, kemctx, kem) == LabeledExpand(LabeledExtract(<<>>, L_eae, dh, KemSuite(kem)), L_ss, kemctx, 32, KemSuite(kem))
+SharedSecret(dh, kemctx, kem) == LET h == KemHash(kem) IN
+   LabeledExpand(h, LabeledExtract(h, <<>>, L_eae, dh, KemSuite(kem)), L_ss, kemctx, Nsecret(kem), KemSuite(kem))
 Nk(aead) == IF aead = 1 THEN 16 ELSE 32
-HpkeKeySchedule(mode, ss, info, psk, pskid, kem, aead) == LET suite == HpkeSuite(kem, 1, aead)
-       ctx == <<mode>> \o LabeledExtract(<<>>, L_pskid, pskid, suite) \o LabeledExtract(<<>>, L_info, info, suite)
-       secret == LabeledExtract(ss, L_secret, psk, suite)
-   IN [key |-> LabeledExpand(secret, L_key, ctx, Nk(aead), suite), nonce |-> LabeledExpand(secret, L_nonce, ctx, 12, suite),
-       exp |-> LabeledExpand(secret, L_exp, ctx, 32, suite)]
+HpkeKeySchedule(mode, ss, info, psk, pskid, kem, aead) == LET h == KemHash(kem)  suite == HpkeSuite(kem, KemKdf(kem), aead)
+       ctx == <<mode>> \o LabeledExtract(h, <<>>, L_pskid, pskid, suite) \o LabeledExtract(h, <<>>, L_info, info, suite)
+       secret == LabeledExtract(h, ss, L_secret, psk, suite)
+   IN [key |-> LabeledExpand(h, secret, L_key, ctx, Nk(aead), suite), nonce |-> LabeledExpand(h, secret, L_nonce, ctx, 12, suite),
+       exp |-> LabeledExpand(h, secret, L_exp, ctx, Nh(h), suite)]
 \* ComputeNonce: base_nonce xor I2OSP(seq, 12); seq given as 12 big-endian bytes
 SeqNonce(base, seq12) == [j \in 1..12 |-> base[j] ^^ seq12[j]]
 SealAt(ks, aead, seq12, aad, pt) == LET n == SeqNonce(ks.nonce, seq12) IN
@@ -44,4 +53,10 @@ A11ks == HpkeKeySchedule(0, A11ss, <<79,100,101,32,111,110,32,97,32,71,114,101,9
 ASSUME A11ks.key = <<69,49,104,93,65,214,95,3,220,72,246,184,48,44,5,176>>
 ASSUME A11ks.nonce = <<86,216,144,229,172,202,175,1,28,255,75,125>>
 ASSUME SealAt(A11ks, 1, <<0,0,0,0,0,0,0,0,0,0,0,0>>, <<67,111,117,110,116,45,48>>, <<66,101,97,117,116,121,32,105,115,32,116,114,117,116,104,44,32,116,114,117,116,104,32,98,101,97,117,116,121>>) = <<249,56,85,139,93,114,241,162,56,16,180,190,42,180,248,67,49,172,192,47,201,123,171,197,58,82,174,130,24,163,85,169,109,135,112,172,131,208,123,234,135,225,60,81,42>>
+\* key schedule and KEM shared secret for the SHA-384 and SHA-512 suites: values produced at authoring time with an independent
+\* transcription of RFC 9180 over Python's hmac/hashlib (not with pycryptodome)
+ASSUME LET ks == HpkeKeySchedule(1, <<1,2,3,4,5,6,7,8,9,10,11,12,13,14,15,16,17,18,19,20,21,22,23,24,25,26,27,28,29,30,31,32,33,34,35,36,37,38,39,40,41,42,43,44,45,46,47,48>>, <<105,110,102,111,33>>, <<0,1,2,3,4,5,6,7,8,9,10,11,12,13,14,15,16,17,18,19,20,21,22,23,24,25,26,27,28,29,30,31,32,33,34,35,36,37,38,39>>, <<105,100>>, 17, 2) IN ks.key = <<105,73,40,151,104,9,102,198,79,195,207,189,21,96,228,132,48,1,240,225,84,43,178,37,102,26,173,16,234,217,33,53>> /\ ks.nonce = <<102,27,233,153,37,144,130,38,142,151,8,188>> /\ ks.exp = <<102,222,177,175,221,175,10,120,150,46,218,131,176,198,69,17,130,39,213,100,21,218,92,122,131,83,198,215,121,215,67,227,137,28,214,104,252,229,167,237,41,64,236,32,126,118,19,110>>
+ASSUME SharedSecret(<<200,201,202,203,204,205,206,207,208,209,210,211,212,213,214,215,216,217,218,219>>, <<0,1,2,3,4,5,6,7,8,9,10,11,12,13,14,15,16,17,18,19,20,21,22,23,24,25,26,27,28,29,30,31,32,33,34,35,36,37,38,39,40,41,42,43,44,45,46,47,48,49>>, 17) = <<51,204,25,132,99,255,73,222,134,95,100,192,108,128,99,144,78,9,148,149,38,38,202,218,123,77,156,54,33,125,72,79,169,1,228,52,65,176,24,169,200,176,216,77,221,70,59,67>>
+ASSUME LET ks == HpkeKeySchedule(1, <<1,2,3,4,5,6,7,8,9,10,11,12,13,14,15,16,17,18,19,20,21,22,23,24,25,26,27,28,29,30,31,32,33,34,35,36,37,38,39,40,41,42,43,44,45,46,47,48,49,50,51,52,53,54,55,56,57,58,59,60,61,62,63,64>>, <<105,110,102,111,33>>, <<0,1,2,3,4,5,6,7,8,9,10,11,12,13,14,15,16,17,18,19,20,21,22,23,24,25,26,27,28,29,30,31,32,33,34,35,36,37,38,39>>, <<105,100>>, 18, 3) IN ks.key = <<5,131,127,219,79,86,65,10,120,69,181,203,190,220,187,95,234,135,62,154,232,139,215,129,13,131,30,126,166,167,49,97>> /\ ks.nonce = <<80,101,251,38,50,42,9,182,72,248,211,12>> /\ ks.exp = <<14,133,180,81,117,199,128,81,78,43,233,166,153,242,251,19,119,47,175,166,191,17,153,215,7,47,217,239,152,236,251,41,78,249,90,9,48,76,163,108,61,128,170,75,14,36,12,90,24,195,160,146,160,113,168,85,97,53,96,246,192,192,83,164>>
+ASSUME SharedSecret(<<200,201,202,203,204,205,206,207,208,209,210,211,212,213,214,215,216,217,218,219>>, <<0,1,2,3,4,5,6,7,8,9,10,11,12,13,14,15,16,17,18,19,20,21,22,23,24,25,26,27,28,29,30,31,32,33,34,35,36,37,38,39,40,41,42,43,44,45,46,47,48,49>>, 18) = <<6,216,232,235,41,161,113,117,27,178,82,141,145,51,38,202,224,31,11,124,247,226,241,78,140,1,32,240,223,232,61,211,220,45,66,255,109,54,111,197,203,109,118,14,110,130,44,97,63,104,99,45,46,231,162,72,126,144,29,50,109,145,177,38>>
 =============================================================================
